@@ -20,7 +20,7 @@ RULE = (
   "non-trivial = capacity below the measured need of at least one world (a fault is actually injected); distinct = (scene, capacities)"
 )
 BOUNDS = {
-  "quick": "small_dense full sweeps; other scenes window per knob (0, stride 8 (48 for nnz>200), and every value need-4..need+1 around each world's need); boxes naccdmax full sweep; 3x3 boundary squares; nworld=2 with unequal needs",
+  "quick": "11 single-builder scenes (one constraint kind each, sparse): full sweeps of njmax and njmax_nnz; small_dense full sweeps; other scenes window per knob (0, stride 8 (48 for nnz>200), and every value need-4..need+1 around each world's need); boxes naccdmax full sweep; 3x3 boundary squares; nworld=2 with unequal needs",
   "thorough": "all scenes full sweeps of every knob incl. njmax_nnz, plus boxes (CCD) scene naccdmax sweep",
 }
 ASSUMPTIONS = [
@@ -37,6 +37,37 @@ BOXES = """<mujoco><option timestep="0.004" {opt}/><worldbody><geom type="plane"
   <body pos="0.05 0.02 0.297"><freejoint/><geom type="box" size=".1 .1 .1"/></body>
   <body pos="0.6 0 0.2"><freejoint/><geom type="ellipsoid" size=".1 .15 .2"/></body></worldbody></mujoco>"""
 
+ONE_KINDS = ("connect", "weld", "jointeq", "tendoneq", "doffriction", "tenfriction", "hingelimit", "balllimit", "tendonlimit", "contact_pyr", "contact_ell")
+
+
+def one_xml(kind, opt):
+  """A scene in which exactly ONE constraint-row builder is active, so that its rows are the last (and only)
+  allocation of rows / Jacobian non-zeros: exact-fit boundaries of every builder are reached one at a time."""
+  cone = 'cone="elliptic"' if kind == "contact_ell" else ""
+  ball = 'limited="true" range="0 0.2"' if kind == "balllimit" else ""
+  hinge = 'limited="true" range="-0.2 0.2"' if kind == "hingelimit" else ""
+  fl = 'frictionloss="0.3"' if kind == "doffriction" else ""
+  plane = '<geom name="floor" type="plane" size="3 3 .1"/>' if kind.startswith("contact") else ""
+  ecol = "" if kind.startswith("contact") else 'contype="0" conaffinity="0"'
+  epos = "0.5 0.3 0.045" if kind.startswith("contact") else "0.5 0.3 1"
+  eq = {
+    "connect": '<connect body1="b" body2="e" anchor="0.25 0 0" solref="0.1 1"/>',
+    "weld": '<weld body1="b" body2="e" solref="0.1 1"/>',
+    "jointeq": '<joint joint1="hb" joint2="se" polycoef="0 1 0 0 0"/>',
+    "tendoneq": '<tendon tendon1="t1" polycoef="0.1 0 0 0 0"/>',
+  }.get(kind, "")
+  ten = {
+    "tendoneq": '<fixed name="t1"><joint joint="hb" coef="1"/><joint joint="se" coef="-2"/></fixed>',
+    "tenfriction": '<fixed name="t1" frictionloss="0.2"><joint joint="hb" coef="1"/><joint joint="se" coef="-2"/></fixed>',
+    "tendonlimit": '<spatial name="t1" limited="true" range="0 0.3"><site site="sa"/><site site="se"/></spatial>',
+  }.get(kind, "")
+  return f"""<mujoco><option timestep="0.004" {opt} {cone}/><worldbody>{plane}
+  <body name="a" pos="0 0 1"><joint name="ba" type="ball" {ball}/><geom type="capsule" fromto="0 0 0 .3 0 0" size=".03" contype="0" conaffinity="0"/><site name="sa" pos=".3 0 0"/>
+    <body name="b" pos=".3 0 0"><joint name="hb" type="hinge" axis="0 1 0" {hinge} {fl}/><geom type="capsule" fromto="0 0 0 .25 0 0" size=".03" contype="0" conaffinity="0"/></body></body>
+  <body name="e" pos="{epos}"><joint name="se" type="slide" axis="0 0 1"/><geom size=".05" {ecol}/><site name="se"/></body>
+  </worldbody><equality>{eq}</equality><tendon>{ten}</tendon></mujoco>"""
+
+
 SCENES = {
   "small_dense": ("small", 'jacobian="dense"'),
   "small_sparse": ("small", 'jacobian="sparse"'),
@@ -45,6 +76,8 @@ SCENES = {
   "rich_sparse": ("rich", 'jacobian="sparse"'),
   "boxes": ("boxes", 'jacobian="sparse"'),
 }
+for _k in ONE_KINDS:
+  SCENES[f"one_{_k}"] = ("one:" + _k, 'jacobian="sparse"')
 
 _M = {}
 
@@ -54,11 +87,25 @@ def _model(sc):
 
   if sc not in _M:
     b, opt = SCENES[sc]
-    xml = BOXES.format(opt=opt) if b == "boxes" else getattr(scenes, b)(opt=opt)
+    if b.startswith("one:"):
+      xml = one_xml(b[4:], opt)
+    else:
+      xml = BOXES.format(opt=opt) if b == "boxes" else getattr(scenes, b)(opt=opt)
     mjm = util.load(xml)
     m = mjw.put_model(mjm)
     m.opt.warn_overflow = False
-    if b == "boxes":
+    if b.startswith("one:"):
+      import mujoco
+
+      sts = []
+      for w in range(2):
+        d = mujoco.MjData(mjm)
+        d.qpos[0:4] = [0.9689, 0.0, 0.2474, 0.0]  # ball rotated 0.5 rad about y (beyond its limit when limited)
+        d.qpos[4] = 0.35 + 0.05 * w  # hinge beyond +0.2
+        d.qpos[5] = 0.02 * w
+        d.qvel[:] = 0.3 * np.cos(np.arange(mjm.nv) + w)
+        sts.append(d)
+    elif b == "boxes":
       import mujoco
 
       sts = []
@@ -118,6 +165,8 @@ def scenarios(tier, seed):
     "rich_sparse": dict(njmax=range(0, 70) if full else W, naconmax=range(0, 20) if full else W, njmax_nnz=range(0, 900) if full else W),
     "boxes": dict(naccdmax=range(0, 14), naconmax=range(0, 24)),
   }
+  for k in ONE_KINDS:
+    sweeps[f"one_{k}"] = dict(njmax=range(0, 14), njmax_nnz=range(0, 66))
   for sc, knobs in sweeps.items():
     if sc == "boxes" and tier == "quick":
       knobs = dict(naccdmax=range(0, 14))
